@@ -115,13 +115,16 @@ First(id, s) == CHOOSE t \in Slots : id[t] = id[s] /\ \A h \in 1..(t - 1) : id[h
 \* identities renumbered in order of first appearance, so that states do not depend on allocation history
 CanonIds(id) == [s \in Slots |-> IF id[s] = 0 THEN 0
                                   ELSE Cardinality({First(id, t) : t \in {h \in Slots : id[h] # 0 /\ First(id, h) <= First(id, s)}})]
+\* references and classes after the operation (no values involved)
+IdsAfter(st, sh, pick) ==
+    IF sh.exc \/ sh.kind # "assign" THEN st.id
+    ELSE CanonIds([st.id EXCEPT ![sh.tgt] = IF pick = "alias" THEN st.id[sh.src] ELSE 1 + MaxOf({st.id[s] : s \in Slots})])
+ClsAfter(st, sh) == IF sh.exc \/ sh.kind # "assign" THEN st.cls ELSE [st.cls EXCEPT ![sh.tgt] = sh.cls]
+Picks(sh) == IF sh.exc \/ sh.kind # "assign" THEN {"none"} ELSE IF sh.res = "either" THEN {"alias", "fresh"} ELSE {sh.pick}
 ApplyPick(st, a, sh, pick) ==
     IF sh.exc THEN st
     ELSE IF sh.kind = "assign"
-    THEN LET nid == IF pick = "alias" THEN st.id[sh.src] ELSE 1 + MaxOf({st.id[s] : s \in Slots})
-         IN  [cls |-> [st.cls EXCEPT ![sh.tgt] = sh.cls],
-              val |-> [st.val EXCEPT ![sh.tgt] = Value(st, a)],
-              id  |-> CanonIds([st.id EXCEPT ![sh.tgt] = nid])]
+    THEN [cls |-> ClsAfter(st, sh), val |-> [st.val EXCEPT ![sh.tgt] = Value(st, a)], id |-> IdsAfter(st, sh, pick)]
     ELSE LET nv == Value(st, a) IN
          [st EXCEPT !.val = [s \in Slots |-> IF st.id[s] = sh.mutid THEN nv ELSE st.val[s]]]
 Apply(st, a) == LET sh == Shape(st, a) IN ApplyPick(st, a, sh, IF sh.exc \/ sh.kind # "assign" THEN "none" ELSE sh.pick)
